@@ -24,6 +24,10 @@ enum Api {
     Write,
     Writeln,
     WriteAll,
+    /// one long-lived stream per thread; even prints end with the start of an escape sequence
+    /// ("...>ESC["), odd prints begin with its end ("1m<..."), so that every second formatted write
+    /// starts with the stream's stripper in the middle of a sequence (stripping mode only)
+    WriteCarry,
 }
 
 #[derive(Clone, Debug, Serialize, Deserialize)]
@@ -165,6 +169,15 @@ fn do_print(case: &Case, tid: usize, seq: usize, gate: Option<&GateShared>) {
             let mut s = anstream::stderr();
             let _ = args_call!(writeln; s);
         }
+        (Api::WriteCarry, false) => {
+            // (the contender of a carry case: an ordinary formatted write on a fresh stream)
+            let mut s = anstream::stdout();
+            let _ = args_call!(write; s);
+        }
+        (Api::WriteCarry, true) => {
+            let mut s = anstream::stderr();
+            let _ = args_call!(write; s);
+        }
         (Api::WriteAll, err) => {
             let text = args_call!(format;);
             if err {
@@ -174,6 +187,26 @@ fn do_print(case: &Case, tid: usize, seq: usize, gate: Option<&GateShared>) {
             }
         }
     }
+}
+
+/// one print of a `WriteCarry` thread on its long-lived stream
+fn do_print_carry(s: &mut dyn Write, case: &Case, tid: usize, seq: usize, gate: Option<&GateShared>) {
+    let fr: Vec<Frag<'_>> = (0..case.fragments)
+        .map(|i| Frag { text: fragment(case, tid, seq, i), gate: if gate.is_some() && i == case.gate_pos % case.fragments { gate } else { None } })
+        .collect();
+    macro_rules! carry {
+        ($pre:literal, $suf:literal) => {
+            match fr.len() {
+                1 => write!(s, concat!($pre, "<{}:{}|{}|{}:{}>", $suf), tid, seq, fr[0], tid, seq),
+                2 => write!(s, concat!($pre, "<{}:{}|{} {}|{}:{}>", $suf), tid, seq, fr[0], fr[1], tid, seq),
+                3 => write!(s, concat!($pre, "<{}:{}|{} {} {}|{}:{}>", $suf), tid, seq, fr[0], fr[1], fr[2], tid, seq),
+                4 => write!(s, concat!($pre, "<{}:{}|{} {} {} {}|{}:{}>", $suf), tid, seq, fr[0], fr[1], fr[2], fr[3], tid, seq),
+                5 => write!(s, concat!($pre, "<{}:{}|{} {} {} {} {}|{}:{}>", $suf), tid, seq, fr[0], fr[1], fr[2], fr[3], fr[4], tid, seq),
+                _ => write!(s, concat!($pre, "<{}:{}|{} {} {} {} {} {}|{}:{}>", $suf), tid, seq, fr[0], fr[1], fr[2], fr[3], fr[4], fr[5], tid, seq),
+            }
+        };
+    }
+    let _ = if seq % 2 == 0 { carry!("", "\x1b[") } else { carry!("1m", "") };
 }
 
 const CONTENDER: usize = 99;
@@ -219,9 +252,17 @@ fn child_main(case: Case) {
         let case = case.clone();
         let g = g.clone();
         handles.push(std::thread::spawn(move || {
+            let mut carried: Option<Box<dyn Write>> = if case.api == Api::WriteCarry {
+                Some(if case.stderr { Box::new(anstream::stderr()) } else { Box::new(anstream::stdout()) })
+            } else {
+                None
+            };
             for seq in 0..case.prints {
                 let gated = tid == 0 && seq < case.gated;
-                do_print(&case, tid, seq, if gated { Some(&g) } else { None });
+                match carried.as_mut() {
+                    Some(s) => do_print_carry(s.as_mut(), &case, tid, seq, if gated { Some(&g) } else { None }),
+                    None => do_print(&case, tid, seq, if gated { Some(&g) } else { None }),
+                }
                 if gated {
                     // let the contender finish this round before the next gated print
                     let round = *g.go.lock().unwrap();
@@ -383,6 +424,23 @@ fn arb_case(gated: bool) -> impl Strategy<Value = Case> {
             pad: 0,
             test_feature: false,
         })
+}
+
+/// long-lived streams whose stripper is in the middle of a sequence when a formatted write starts
+fn arb_carry_case(gated: bool) -> impl Strategy<Value = Case> {
+    (any::<bool>(), 2usize..=8, 1usize..=6, 0usize..6).prop_map(move |(stderr, threads, fragments, gate_pos)| Case {
+        strip: true,
+        stderr,
+        api: Api::WriteCarry,
+        threads: if gated { threads.min(4) } else { threads },
+        // an even number of prints: every thread ends with its stream back in the ground state
+        prints: if gated { 6 } else { 400 },
+        fragments,
+        gated: if gated { 6 } else { 0 },
+        gate_pos,
+        pad: 0,
+        test_feature: false,
+    })
 }
 
 /// records of 64 KiB .. 200 KiB: larger than the pipe buffer and any plausible internal chunk size
@@ -589,11 +647,14 @@ fn run(args: &Args, rep: &mut Report) {
             c
         })
         .collect();
+    let mut carry_cases = sample_values(rt::derive_seed(args.seed, "carry-gated", 0), tier.pick(40, 400), &arb_carry_case(true));
+    carry_cases.extend(sample_values(rt::derive_seed(args.seed, "carry-stress", 0), tier.pick(12, 100), &arb_carry_case(false)));
     let large_cases = sample_values(rt::derive_seed(args.seed, "large", 0), tier.pick(24, 240), &arb_large_case());
     for (name, cases, bound) in [
         ("gated-prints", gated_cases, "generated cases with 5 gated prints each (2..4 threads + contender)"),
         ("free-running-stress", stress_cases, "generated cases with 2..16 threads x 400 prints, no gate"),
         ("large-records", large_cases, "generated cases with 2..6 threads x 10 prints of 64..200 KiB each (one-letter-per-thread padding), all APIs, no gate"),
+        ("carried-state", carry_cases, "one long-lived stream per thread, formatted writes that alternately end and begin inside an escape sequence (stripping mode): gated cases (6 gated prints) and free-running stress (2..8 threads x 400 prints)"),
         ("test-feature-build", tf_cases, "print!/println!/eprint!/eprintln! in a child built against anstream with its `test` feature (capture-aware branch of the macros): 2..16 threads x 400 prints, some with 70 KB records, no gate"),
     ] {
         // children are run a few at a time: the gate needs idle cores to be meaningful
